@@ -27,6 +27,10 @@ def main(argv):
         res = rb.record_domain(inputs, d, jobs=args.jobs, shards=args.jobs, stages=True, heavy=70)
         stat = evaluate(res, "C06", args.jobs)
         out = explore(res, args.jobs)
+        if not args.replay:
+            from . import designfam
+
+            designfam.attach_walk(rep, PROP, args.tier, d, args.jobs)
         from . import tracefam
 
         tr = tracefam.run_traces(tracefam.trace_inputs(args.tier, args.seed) if not args.replay else inputs, "C06", d, args.jobs)
